@@ -3214,9 +3214,17 @@ impl Block {
                 return false;
             }
             // validate double-spend inputs
+            //
+            // every input that carries an amount is looked up in the utxoset (see
+            // slip.validate()) as it stood before this block, so each of them may be
+            // spent by one transaction of the block only. that includes the first Bound
+            // slip of an NFT group, which carries the NFT amount : two transactions of
+            // one block spending it would each find it unspent and the NFT would leave
+            // the block twice. zero-amount inputs (e.g. the tracking slip of an NFT
+            // group) are placeholders which are never looked up and may repeat.
             if valid_tx && tx.transaction_type != TransactionType::Fee {
                 for input in tx.from.iter() {
-                    if input.amount == 0 || input.slip_type == SlipType::Bound {
+                    if input.amount == 0 {
                         continue;
                     }
                     let utxo_key = input.get_utxoset_key();
